@@ -122,6 +122,8 @@ def tstep (s : Tok) : TOp → Tok
 
 def trun (s : Tok) (ops : List TOp) : Tok := ops.foldl tstep s
 
+def tok0 : Tok := ⟨fun _ => 0, fun _ => 0, 0, [], []⟩
+
 /-- the units of the token held in its channel -/
 def held (s : Tok) : Int := sumOver s.keys s.bal + sumOver s.ids s.escrow
 
